@@ -31,6 +31,14 @@ fn reference(max: u128, limit: Option<u32>, initial: u128, n: usize) -> Vec<Opti
     out
 }
 
+pub fn dispatch(args: &Args, rep: &mut Report) -> bool {
+    match args.prop.as_str() {
+        "C37" => c37(args, rep),
+        _ => return false,
+    }
+    true
+}
+
 pub fn c37(args: &Args, rep: &mut Report) {
     let mut rng = Rng::new(args.seed ^ 0xC37 ^ (args.shard as u64) << 32);
     let dmax = nanos(Duration::MAX);
